@@ -255,6 +255,12 @@ def load_calibrator_state(
         samplers = pickle.loads(scheduler_pickled)  # nosec B301
         loss_function = pickle.loads(loss_function_pickled)  # nosec B301
 
+        # undo the conversions made by the column affinities: an integer precision
+        # is stored in a DOUBLE column (3 -> 3.0) and a bool in an INTEGER one
+        if isinstance(convergence_precision, float) and convergence_precision.is_integer():
+            convergence_precision = int(convergence_precision)
+        verbose = bool(verbose)
+
         return (
             parameters_bounds,
             parameters_precision,
